@@ -3,8 +3,7 @@
 Shape B: explicit-state breadth-first search over the real LightSet (over the
 real LifxLanApi and the simulated LAN, virtual time at light.time).  Events:
 discover(snapshot) for every population snapshot over names {a,b,c} x groups
-{g,h} x locations {p,q} x absent, failed discover, advance(half age),
-advance(> age), expire, refresh.  Canonical state = per name (group, location,
+{g,h} x locations {p,q} x absent, failed discover, advance(half age + 0.25), advance(age + 0.5), expire, refresh.  Canonical state = per name (group, location,
 age) + the index structures; the invariant and a reference directory are
 checked in every state; the search runs to a fixpoint.
 
@@ -34,7 +33,7 @@ class VTime:
 
 def events(names):
     ev = [('discover', snap) for snap in itertools.product(PLACES, repeat=len(names))]
-    ev += [('failed-discover',), ('advance', MAX_AGE / 2), ('advance', MAX_AGE * 1.5), ('expire',), ('refresh',)]
+    ev += [('failed-discover',), ('advance', MAX_AGE / 2 + 0.25), ('advance', MAX_AGE + 0.5), ('expire',), ('refresh',)]
     return ev
 
 
